@@ -11,6 +11,9 @@ Stage by stage, no `panic` outcome of the models is reachable:
   annotator accepts every block in which only the last instruction ends a
   block, which is what the separator produces (C16), provided the `u16`
   variable counter cannot overflow (`popBudget ≤ 65535`: finding D20 otherwise);
+  exactly (`C15_annotate_exact`, `C15_annotate_refused`): accepted iff the number
+  of input variables the block needs, `inputsNeeded`, is at most 65535 — e.g.
+  3856 × `swap16` has `popBudget` 65552 but needs 17 variables and is accepted;
 * building, refining (`C15_cfg`): `cfgNew` and `refine` never panic on accepted
   blocks with pairwise distinct offsets, for every solver; every `Sym` has a
   translation (`C05_translation`).
@@ -18,6 +21,7 @@ Partial by nature: time and memory (expression size can double per `dup`:
 finding D21) and machine stack depth are outside the model.
 -/
 import EtkVerif.Annot.Total
+import EtkVerif.Annot.TotalExact
 import EtkVerif.Cfg.Lemmas
 import EtkVerif.Cfg.Pipeline
 namespace EtkVerif.C15
@@ -48,5 +52,43 @@ theorem C15_pipeline (code : List Nat) (hb : ∀ b ∈ code, b < 256) (hlen : co
     ∃ anns g g', Pipeline.annotateAll Gen.cancun (Pipeline.blocks code) = .ok anns ∧
       cfgNew anns = .ok g ∧ refine sat g = .ok g' :=
   Pipeline.pipeline_total code hb hlen hbudget sat
+
+/-- `C15_annotate` with the exact hypothesis: what bounds the `u16` variable counter
+is not the sum of the declared pops (`popBudget`) but the number of input variables
+the block needs (`inputsNeeded`, abstract stack-height bookkeeping over the table).
+The accepted annotation has exactly that many inputs; beyond 65535 the block is
+refused with the counter overflow (`C15_annotate_refused`, finding D20), so the
+hypothesis is necessary as well as sufficient (`Annot.annotate_ok_iff`). -/
+theorem C15_annotate_exact (b : Blocks.Block) (hne : b.ops ≠ [])
+    (hops : ∀ i ∈ b.ops, i.op < 256)
+    (hshape : ∀ i ∈ b.ops.dropLast, Blocks.endsBlock Gen.cancun i = false)
+    (hvars : inputsNeeded Gen.cancun b.ops ≤ 65535) :
+    ∃ a, annotate Gen.cancun b = .ok a ∧ a.inputs = inputsNeeded Gen.cancun b.ops :=
+  annotate_total_exact_inputs Gen.cancun tableLedgerOK_cancun b hne hops hshape hvars
+
+theorem C15_annotate_refused (b : Blocks.Block)
+    (hops : ∀ i ∈ b.ops, i.op < 256)
+    (hshape : ∀ i ∈ b.ops.dropLast, Blocks.endsBlock Gen.cancun i = false)
+    (hvars : 65535 < inputsNeeded Gen.cancun b.ops) :
+    annotate Gen.cancun b = .error .varOverflow :=
+  annotate_refused_exact Gen.cancun tableLedgerOK_cancun b hops hshape hvars
+
+/-- The old hypothesis implies the new one. -/
+theorem C15_inputs_le_budget (ops : List Disasm.Instr) :
+    inputsNeeded Gen.cancun ops ≤ popBudget Gen.cancun ops :=
+  inputsNeeded_le_popBudget Gen.cancun ops
+
+/-- 3856 × `swap16`: `popBudget` is 65552 (so `C15_annotate` does not apply), but the
+block needs only 17 input variables and is accepted. -/
+example :
+    65535 < popBudget Gen.cancun (List.replicate 3856 ⟨0x9f, []⟩) ∧
+    ∃ a, annotate Gen.cancun ⟨0, List.replicate 3856 ⟨0x9f, []⟩⟩ = .ok a ∧ a.inputs = 17 := by
+  have hn : inputsNeeded Gen.cancun (List.replicate 3856 ⟨0x9f, []⟩) = 17 := by decide +kernel
+  refine ⟨by decide +kernel, ?_⟩
+  obtain ⟨a, ha, hi⟩ := C15_annotate_exact ⟨0, List.replicate 3856 ⟨0x9f, []⟩⟩
+    (by show List.replicate 3856 _ ≠ []; rw [ne_eq, List.replicate_eq_nil_iff]; decide)
+    (totx_replicate_hops _ _ (by decide)) (totx_replicate_hshape _ _ _ (by decide +kernel))
+    (by show inputsNeeded Gen.cancun (List.replicate 3856 ⟨0x9f, []⟩) ≤ 65535; rw [hn]; decide)
+  exact ⟨a, ha, by rw [hi]; exact hn⟩
 
 end EtkVerif.C15
